@@ -578,7 +578,9 @@ class Interp:
             v = self.block(item["block"], sc, cx, hint=rty)
             if cx.returned is False:
                 return v
-            return ite(cx.returned, cx.ret, v) if v is not None else cx.ret
+            if v is None or (isinstance(v, V.Unit) and not isinstance(cx.ret, V.Unit)):
+                return cx.ret       # the tail is a diverging expression (loop / return on every path)
+            return ite(cx.returned, cx.ret, v)
         finally:
             self.depth[fname] = d
 
